@@ -35,7 +35,7 @@ Case ==
     /\ LET c == IF Ev.genTail = -1 THEN Abstract(Ev) ELSE [Abstract(Ev) EXCEPT !.gens = <<>>]
            s == WChk(c)
        IN /\ (CheckLayout) => Ev.shape = ShapeCodes(s)   \* layout: header line, name lines, counts, field order, separators
-          /\ Ev.genTail \in {-1, 1}            \* long generator states: one per line, single blanks, nres + 1 of them
+          /\ (CheckLayout) => Ev.genTail \in {-1, 1}   \* long generator states: one per line, single blanks, nres + 1 of them
           /\ (Ev.gw <= 30) => RoundTrip(c, Ev.gw, "exact")   \* the format itself is unambiguous for this structure
     /\ Ev.good = 1                             \* the stream is still good after reading
     /\ Ev.equal = 1                            \* every field equal, bit for bit
